@@ -212,17 +212,17 @@ enum Slot {
     Raw(*const Payload),
 }
 
-type MG = loom::sync::MutexGuard<'static, ()>;
-type RG = loom::sync::RwLockReadGuard<'static, ()>;
-type WG = loom::sync::RwLockWriteGuard<'static, ()>;
+type MG = loom::sync::MutexGuard<'static, usize>;
+type RG = loom::sync::RwLockReadGuard<'static, usize>;
+type WG = loom::sync::RwLockWriteGuard<'static, usize>;
 
 pub struct Sh {
     prog: SArc<Prog>,
     idx: HashMap<String, usize>,
     atoms: Vec<US<AtomicUsize>>,
     cells: Vec<SArc<US<loom::cell::UnsafeCell<usize>>>>,
-    mtxs: Vec<loom::sync::Mutex<()>>,
-    rws: Vec<loom::sync::RwLock<()>>,
+    mtxs: Vec<US<Option<loom::sync::Mutex<usize>>>>,
+    rws: Vec<US<Option<loom::sync::RwLock<usize>>>>,
     cvs: Vec<loom::sync::Condvar>,
     ntfs: Vec<loom::sync::Notify>,
     txs: Vec<US<Option<loom::sync::mpsc::Sender<usize>>>>,
@@ -289,8 +289,8 @@ impl Sh {
             .iter()
             .map(|_| SArc::new(US::new(loom::cell::UnsafeCell::new(0usize))))
             .collect();
-        let mtxs = prog.mtxs.iter().map(|_| loom::sync::Mutex::new(())).collect();
-        let rws = prog.rws.iter().map(|_| loom::sync::RwLock::new(())).collect();
+        let mtxs = prog.mtxs.iter().map(|_| US::new(Some(loom::sync::Mutex::new(0usize)))).collect();
+        let rws = prog.rws.iter().map(|_| US::new(Some(loom::sync::RwLock::new(0usize)))).collect();
         let cvs = prog.cvs.iter().map(|_| loom::sync::Condvar::new()).collect();
         let ntfs = prog.ntfs.iter().map(|_| loom::sync::Notify::new()).collect();
         let aws = prog.aws.iter().map(|_| loom::future::AtomicWaker::new()).collect();
@@ -538,12 +538,12 @@ fn run_thread(sh: SArc<Sh>, t: usize) {
             }
             "lock" => {
                 let i = oi();
-                let g = sh.mtxs[i].lock().unwrap();
+                let g = sh.mtxs[i].get().as_ref().unwrap().lock().unwrap();
                 mg.insert(i, unsafe { std::mem::transmute::<_, MG>(g) });
             }
             "trylock" => {
                 let i = oi();
-                match sh.mtxs[i].try_lock() {
+                match sh.mtxs[i].get().as_ref().unwrap().try_lock() {
                     Ok(g) => {
                         mg.insert(i, unsafe { std::mem::transmute::<_, MG>(g) });
                         res = Some(1);
@@ -551,22 +551,33 @@ fn run_thread(sh: SArc<Sh>, t: usize) {
                     Err(_) => res = Some(0),
                 }
             }
+            "mset" => **mg.get_mut(&oi()).expect("harness: mset without guard") = ins.v as usize,
+            "mget" => res = Some(**mg.get(&oi()).expect("harness: mget without guard") as i64),
+            "mgetmut" => res = Some(*sh.mtxs[oi()].get().as_mut().unwrap().get_mut().unwrap() as i64),
+            "minto" => res = Some(sh.mtxs[oi()].get().take().expect("harness: mutex already consumed").into_inner().unwrap() as i64),
+            "rwset" => **wg.get_mut(&oi()).expect("harness: rwset without write guard") = ins.v as usize,
+            "rwget" => {
+                let i = oi();
+                res = Some(if let Some(g) = wg.get(&i) { **g } else { **rg.get(&i).expect("harness: rwget without guard") } as i64);
+            }
+            "rwgetmut" => res = Some(*sh.rws[oi()].get().as_mut().unwrap().get_mut().unwrap() as i64),
+            "rwinto" => res = Some(sh.rws[oi()].get().take().expect("harness: rwlock already consumed").into_inner().unwrap() as i64),
             "unlock" => {
                 drop(mg.remove(&oi()).expect("harness: unlock without guard"));
             }
             "read" => {
                 let i = oi();
-                let g = sh.rws[i].read().unwrap();
+                let g = sh.rws[i].get().as_ref().unwrap().read().unwrap();
                 rg.insert(i, unsafe { std::mem::transmute::<_, RG>(g) });
             }
             "write" => {
                 let i = oi();
-                let g = sh.rws[i].write().unwrap();
+                let g = sh.rws[i].get().as_ref().unwrap().write().unwrap();
                 wg.insert(i, unsafe { std::mem::transmute::<_, WG>(g) });
             }
             "tryread" => {
                 let i = oi();
-                match sh.rws[i].try_read() {
+                match sh.rws[i].get().as_ref().unwrap().try_read() {
                     Ok(g) => {
                         rg.insert(i, unsafe { std::mem::transmute::<_, RG>(g) });
                         res = Some(1);
@@ -576,7 +587,7 @@ fn run_thread(sh: SArc<Sh>, t: usize) {
             }
             "trywrite" => {
                 let i = oi();
-                match sh.rws[i].try_write() {
+                match sh.rws[i].get().as_ref().unwrap().try_write() {
                     Ok(g) => {
                         wg.insert(i, unsafe { std::mem::transmute::<_, WG>(g) });
                         res = Some(1);
